@@ -20,6 +20,9 @@ type jb struct {
 	// (JustAttributes), for which json/spec.md requires a single JSON object.
 	PlainObject map[string]bool
 	plain       bool
+	// ExprAsTemplate: an attribute value that is not a literal is written as the JSON
+	// string "${<canonical expression>}" (full-expression mode).
+	ExprAsTemplate bool
 }
 
 func jsonString(s string) string {
@@ -124,6 +127,30 @@ func (j *jb) literal(n ast.Node) (string, bool) {
 		return "{" + strings.Join(parts, ",") + "}", true
 	}
 	return "", false
+}
+
+// exprJSON writes an arbitrary expression in full-expression mode: literals as JSON
+// values, a statically analysed variable name (dynamic block iterator) as a plain string,
+// a statically analysed list (dynamic block labels) as an array, anything else as "${...}".
+func (j *jb) exprJSON(n ast.Node) string {
+	if v, ok := j.literal(n); ok {
+		return v
+	}
+	if ex, ok := n.(ast.Exact); ok {
+		switch x := ex.X.(type) {
+		case ast.Var:
+			return jsonString(x.Name)
+		case ast.Tuple:
+			parts := make([]string, len(x.Elems))
+			for i, e := range x.Elems {
+				parts[i] = j.exprJSON(e)
+			}
+			return "[" + strings.Join(parts, ",") + "]"
+		}
+		return j.exprJSON(ex.X)
+	}
+	canon, _ := Expression(n, Fixed{}, Opts{})
+	return jsonString("${" + canon + "}")
 }
 
 type jprop struct {
@@ -268,6 +295,10 @@ func (j *jb) body(b *ast.Body) (string, bool) {
 		switch x := it.(type) {
 		case ast.Attr:
 			v, ok := j.literal(x.Expr)
+			if !ok && j.ExprAsTemplate {
+				v, ok = j.exprJSON(x.Expr), true
+				j.Feat["expression_as_template"] = true
+			}
 			if !ok {
 				return "", false
 			}
@@ -313,6 +344,17 @@ func (j *jb) body(b *ast.Body) (string, bool) {
 // JSONFile renders a body tree as one of its admissible JSON encodings.
 func JSONFile(b *ast.Body, ch Chooser, wild bool, escapeTemplates bool, plainObject ...string) (string, JSONFeat, bool) {
 	j := &jb{ch: ch, wild: wild, Feat: JSONFeat{}, EscapeTemplates: escapeTemplates, PlainObject: map[string]bool{}}
+	for _, p := range plainObject {
+		j.PlainObject[p] = true
+	}
+	s, ok := j.body(b)
+	return s, j.Feat, ok
+}
+
+// JSONFileExprs is JSONFile in full-expression mode: non-literal attribute values become
+// "${...}" template strings (literal strings are escaped accordingly).
+func JSONFileExprs(b *ast.Body, ch Chooser, wild bool, plainObject ...string) (string, JSONFeat, bool) {
+	j := &jb{ch: ch, wild: wild, Feat: JSONFeat{}, EscapeTemplates: true, ExprAsTemplate: true, PlainObject: map[string]bool{}}
 	for _, p := range plainObject {
 		j.PlainObject[p] = true
 	}
